@@ -295,11 +295,19 @@ def load_known_d(ctx):
 
 
 def sample_groups(rng, groups, quick, k):
+    """groups for one population: every group with two spatial families first, then a seeded sample of the others
+    (thorough: all).  Histories other than the first run a seeded sub-sample (see build_payloads)."""
     two = [g for g in groups if len(g["spatial"]) == 2]
     rest = [g for g in groups if len(g["spatial"]) < 2 and g["names"]]
     if not quick:
         return two + rest
     return two + rng.sample(rest, min(k, len(rest)))
+
+
+def sub_sample(rng, gs, n_two, n_rest):
+    two = [g for g in gs if len(g["spatial"]) == 2]
+    rest = [g for g in gs if len(g["spatial"]) < 2]
+    return rng.sample(two, min(n_two, len(two))) + rng.sample(rest, min(n_rest, len(rest)))
 
 
 def build_payloads(ctx, meta, groups, npop, k_groups, quick):
@@ -316,8 +324,13 @@ def build_payloads(ctx, meta, groups, npop, k_groups, quick):
         if pi % 3 == 0:
             hs.append({"name": "skipdiff", "ops": skipdiff_history(rng, meta, P, nreg)})
         gs = sample_groups(rng, groups, quick, k_groups)
-        payloads.append({"regions": regions, "histories": hs, "groups": [g["names"] for g in gs], "records_query": True})
-        descr.append({"P": P, "groups": gs, "dangling": dangling, "regions": regions})
+        for k, h in enumerate(hs):
+            hg = gs if k == 0 else sub_sample(rng, gs, 16 if quick else 48, 12 if quick else 60)
+            h["groups"] = [g["names"] for g in hg]
+            h["_groups"] = hg
+        payloads.append({"regions": regions, "histories": [{k: v for k, v in h.items() if k != "_groups"} for h in hs],
+                         "groups": [g["names"] for g in gs], "records_query": True})
+        descr.append({"P": P, "groups": gs, "hgroups": [h["_groups"] for h in hs], "dangling": dangling, "regions": regions})
     return payloads, descr
 
 
@@ -369,9 +382,22 @@ def check_population(ctx: Ctx, meta: Meta, pi, payload, d, res, hcases, qcases, 
                 rq = ho["records"].get(e, {})
                 gotq = norm([r[0] + [r[1]] for r in rq.get("rows", [])]) if "rows" in rq else rq.get("err")
                 ctx.count()
-                if gotq != got:
-                    ctx.oracle_fail(f"query_dimension_records:{e}", {"population": pi, "history": hname, "ops": h["ops"],
-                                                                     "regions": d["regions"], "element": e, "stored": got, "returned": gotq},
+                # a record is returned under its data ID, so only records whose own data ID is consistent can be
+                # (a visit_definition row linking an exposure and a visit of different physical filters cannot)
+                eg = d.get("egroups", {}).get(e)
+                wantq = got
+                if eg is not None:
+                    key = ("rec", e)
+                    if key not in exp_cache:
+                        exp_cache[key] = {tuple(x[eg["names"].index(k)] for k in meta.cols(e)) for x in expected_rows(meta, eg, P, ovx)}
+                    wantq = [x for x in got if tuple(x[:-1]) in exp_cache[key]]
+                if gotq != wantq:
+                    dsig = f"query_dimension_records:{e}"
+                    if d["dangling"] and e == "subfilter" and isinstance(gotq, list) and all(x in gotq for x in wantq) \
+                            and all(x[0] == 3 for x in gotq if x not in wantq):
+                        dsig = "dangling-band:subfilter"
+                    ctx.oracle_fail(dsig, {"population": pi, "history": hname, "ops": h["ops"],
+                                                                     "regions": d["regions"], "element": e, "stored": wantq, "returned": gotq},
                                     "query_dimension_records does not return the stored records")
         for e, want in want_ovl.items():
             got = norm([r[0] + [r[1]] for r in ho["overlaps"].get(e, [])])
@@ -388,7 +414,8 @@ def check_population(ctx: Ctx, meta: Meta, pi, payload, d, res, hcases, qcases, 
             if ":" in k:
                 ctx.oracle_fail("overlap-rows-other-system", {"population": pi, "history": hname, "table": k}, "rows for another skypix system")
         # --- queries
-        for g, q in zip(d["groups"], ho["queries"]):
+        hgroups = d["hgroups"][hi] if "hgroups" in d else d["groups"]
+        for g, q in zip(hgroups, ho["queries"]):
             names = g["names"]
             key = tuple(names)
             if key not in exp_cache:
@@ -496,6 +523,19 @@ def run_corpus(ctx, meta, groups, defs, hcases, qcases):
     ctx.hist("corpus", "cases", len(items))
 
 
+def element_groups(meta, groups):
+    """the smallest closed group containing an element's required dimensions (its records' data IDs live there)"""
+    out = {}
+    for e in ORDER:
+        req = set(meta.el[e]["required"])
+        best = None
+        for g in groups:
+            if req <= set(g["names"]) and (best is None or len(g["names"]) < len(best["names"])):
+                best = g
+        out[e] = best
+    return out
+
+
 def _main(ctx: Ctx, quick: bool, model: bool = True):
     stt, info = run_worker("c06_impl", "list_groups", {}, timeout=300)
     if stt != "ok":
@@ -507,8 +547,11 @@ def _main(ctx: Ctx, quick: bool, model: bool = True):
     ctx.hist("groups", "with two spatial families", sum(1 for g in groups if len(g["spatial"]) == 2))
     defs, hcases, qcases = [], [], []
     run_corpus(ctx, meta, groups, defs, hcases, qcases)
-    npop = 6 if quick else 24
-    payloads, descr = build_payloads(ctx, meta, groups, npop, 24, quick)
+    npop = 5 if quick else 12
+    payloads, descr = build_payloads(ctx, meta, groups, npop, 16, quick)
+    egroups = element_groups(meta, groups)
+    for d in descr:
+        d["egroups"] = egroups
     results = parallel_workers("c06_impl", "run_population", payloads, timeout=900 if quick else 2400)
     for pi, (pl, d, (stt, res)) in enumerate(zip(payloads, descr, results)):
         if stt != "ok":
